@@ -82,7 +82,9 @@ func lruRunCase(ctx *Ctx, capacity, mod int, fails []int, ttl int, ops []string)
 				item := lru.NewCacheItem(v, lruBase.Add(time.Duration(now+ttl)*time.Millisecond))
 				// creation takes time: the clock moves while the create function runs (the deadline was fixed
 				// at its start); the latency is a function of the case header so that replays reproduce it
-				now += []int{0, 0, ttl + 2, 1}[(capacity+ttl+len(fails))%4]
+				if ttl < 1000000000 { // (not for the "never expires" deadlines below)
+					now += []int{0, 0, ttl + 2, 1}[(capacity+ttl+len(fails))%4]
+				}
 				return item, err
 			},
 			func(pk int, v lru.ExpirableItem[int]) { onDelete(pk, v.Value) })
@@ -230,6 +232,10 @@ func runLru(ctx *Ctx) {
 	for c := 0; c < ne; c++ {
 		capacity := r.Range(1, 3)
 		ttl := []int{3, 10, 50}[r.Intn(3)]
+		if r.Chance(1, 6) {
+			// "never expires": a deadline centuries ahead (beyond what fits a 64-bit nanosecond count since 1970)
+			ttl = []int{8830000000000, 8000000000000}[r.Intn(2)]
+		}
 		var fails []int
 		for i := 0; i < 40; i++ {
 			if r.Chance(1, 10) {
